@@ -65,6 +65,10 @@ def run(ctx):
         n = B.check_container(ctx, "RB", prog, label, adt, field, limit, doc) or 0
         total += n
     total += B.check_typed_vec(ctx, "RB", prog, *B.DEPTH)
+    # the depth counter travels with the VM: step_op hands compute a clone of the executing VM's parent-memory stack
+    from .. import access as A_
+    from .C19 import _OnlyKeys
+    A_.compute_inputs_wiring(_OnlyKeys(ctx, "RB", "RB", r"parent_memory|one-ComputeInputs|fn step_op"), "RB")
     ctx.floor("RB", "writer sites of bounded vectors", total, 20)
     # RB3: every Vm aggregate outside compute gives parent_memory an empty/default value -- covered by check_container('compute-depth')
     # RV
